@@ -177,16 +177,18 @@ def strategy_e2e(tier):
 def strategy(tier):
     from hypothesis import strategies as st
 
-    # Both candidates are cheap to generate; the selector is drawn *last* so that Hypothesis' habit of re-using choice
-    # prefixes of earlier examples does not produce bursts of (expensive) end-to-end cases.  The all-simplest example
-    # (selector 0) is a kernel case.
-    n_sel = 1000 if tier == "quick" else 500
+    # Both candidates are cheap to generate.  Which one is returned is a hash of the kernel candidate: Hypothesis re-uses
+    # and mutates choice sequences of earlier examples, so a *drawn* selector comes in bursts of 7-20 (expensive)
+    # end-to-end cases per shard (measured); a content hash changes with every mutation and gives a flat 1/n_sel rate.
+    from vf.core import jhash
+
+    n_sel = 800 if tier == "quick" else 400
 
     @st.composite
     def both(draw):
         k = draw(strategy_kernel(tier))
         e = draw(strategy_e2e(tier))
-        return e if draw(st.integers(0, n_sel - 1)) == n_sel // 2 else k
+        return e if int(jhash(k), 16) % n_sel == 0 else k
 
     return both()
 
